@@ -246,6 +246,19 @@ def LinModel.tAdjPar (M : LinModel R) (x : Nat → R) : Nat → R :=
 def LinModel.tGetMatrix (M : LinModel R) : LMat R :=
   if M.matrixBacked then M.A.transpose else columnsOf M.dom.parDim M.rng.parDim M.tFwdPar
 
+/-- Input representations.  `forward`/`adjoint` accept a plain array, a `CUQIarray` in parameter
+    representation, a `CUQIarray` flagged as function values, or `Samples` (iterated column by
+    column); `_2fun` uses `x.funvals` when the array carries the geometry it is expected on, and `_2par`
+    converts the operator output with the model's RANGE geometry unless that output is a `CUQIarray`
+    whose geometry *equals* it (full equality) — so `fwdPar` / `adjPar` are the maps for every
+    representation.  For `M.T` a geometry-tagged `CUQIarray` is recognised by the inner bound method as
+    "already a function value" / "already parameters", i.e. the second application of the geometry
+    maps is skipped and `T` is the plain swap; `Samples` are iterated as plain vectors (`tFwdPar`). -/
+def LinModel.tFwdParTagged (M : LinModel R) (y : Nat → R) : Nat → R := M.adjPar y
+
+/-- `M.T.adjoint` on a geometry-tagged `CUQIarray` -/
+def LinModel.tAdjParTagged (M : LinModel R) (x : Nat → R) : Nat → R := M.fwdPar x
+
 /-- matrix of the second application of `par2fun` -/
 def Geom.reEMat (g : Geom R) : LMat R := if g.reshapeLike then LMat.identity g.funDim else g.E
 
